@@ -1,1 +1,328 @@
-//! Read-path matrix (C08 / C20): filled in below.
+//! Read-path matrix (C08 / C20): every way of reading a range / an index is run
+//! against the reference contents restricted to that range.
+
+use vecdb::{ReadableBoxedVec, ReadableVec};
+
+use super::elem::Elem;
+use super::{first_diff_dense, same_opt};
+
+/// reference contents visible through one reader
+pub struct View<'a, T> {
+    pub items: &'a [Option<T>],
+    /// index-addressed reads of a deleted slot yield nothing (raw vector with holes);
+    /// false for readers that are documented to ignore holes (stored-only views)
+    pub what: &'static str,
+}
+
+impl<'a, T: Elem> View<'a, T> {
+    pub fn len(&self) -> usize {
+        self.items.len()
+    }
+    pub fn range(&self, from: usize, to: usize) -> Vec<T> {
+        let len = self.len();
+        let from = from.min(len);
+        let to = to.min(len);
+        if from >= to {
+            return vec![];
+        }
+        self.items[from..to].iter().filter_map(|v| *v).collect()
+    }
+    pub fn at(&self, i: usize) -> Option<T> {
+        self.items.get(i).copied().flatten()
+    }
+    pub fn has_holes(&self) -> bool {
+        self.items.iter().any(|v| v.is_none())
+    }
+}
+
+/// When false (C20: the access tap is the oracle) value mismatches are not failures.
+pub static VALUES_MATTER: std::sync::atomic::AtomicBool = std::sync::atomic::AtomicBool::new(true);
+
+pub fn fail(msg: String) -> Result<(), String> {
+    if VALUES_MATTER.load(std::sync::atomic::Ordering::Relaxed) { Err(msg) } else { Ok(()) }
+}
+
+fn cmp<T: Elem>(what: &str, path: &str, from: usize, to: usize, got: &[T], want: &[T]) -> Result<(), String> {
+    match first_diff_dense(got, want) {
+        None => Ok(()),
+        Some(d) => fail(format!("{what}: {path}({from}, {to}) disagrees with the reference contents: {d}")),
+    }
+}
+
+pub fn i64_to_usize(i: i64, len: usize) -> usize {
+    if i >= 0 {
+        (i as usize).min(len)
+    } else {
+        let v = len as i64 + i;
+        if v < 0 { 0 } else { v as usize }
+    }
+}
+
+/// all range-read paths of a Sized ReadableVec
+pub fn check_range<T: Elem, R: ReadableVec<usize, T>>(
+    r: &R,
+    view: &View<T>,
+    from: usize,
+    to: usize,
+    salt: u64,
+    count: &mut u64,
+) -> Result<(), String> {
+    let w = view.what;
+    let want = view.range(from, to);
+    *count += 14;
+    cmp(w, "collect_range_at", from, to, &r.collect_range_at(from, to), &want)?;
+    cmp(w, "collect_range", from, to, &r.collect_range(from, to), &want)?;
+    cmp(w, "collect_range_dyn", from, to, &r.collect_range_dyn(from, to), &want)?;
+    let sentinel = T::from_seed(salt ^ 0xABCD);
+    let mut buf = vec![sentinel; 3];
+    r.collect_range_into_at(from, to, &mut buf);
+    cmp(w, "collect_range_into_at", from, to, &buf, &want)?;
+    let mut buf = vec![sentinel];
+    r.read_into_at(from, to, &mut buf);
+    if buf.is_empty() || !buf[0].same(&sentinel) {
+        return fail(format!("{w}: read_into_at({from}, {to}) cleared or overwrote the caller's buffer"));
+    }
+    cmp(w, "read_into_at", from, to, &buf[1..], &want)?;
+    let mut buf = vec![sentinel];
+    r.read_into(from, to, &mut buf);
+    cmp(w, "read_into", from, to, &buf[1..], &want)?;
+    let got = r.fold_range_at(from, to, Vec::new(), |mut a, v| {
+        a.push(v);
+        a
+    });
+    cmp(w, "fold_range_at", from, to, &got, &want)?;
+    let got = r.fold_range(from, to, Vec::new(), |mut a, v| {
+        a.push(v);
+        a
+    });
+    cmp(w, "fold_range", from, to, &got, &want)?;
+    let got: Result<Vec<T>, ()> = r.try_fold_range_at(from, to, Vec::new(), |mut a, v| {
+        a.push(v);
+        Ok(a)
+    });
+    cmp(w, "try_fold_range_at", from, to, &got.unwrap(), &want)?;
+    // early exit: the closure fails at position k, everything before must have been delivered in order
+    if !want.is_empty() {
+        let k = (salt as usize) % want.len();
+        let mut seen = Vec::new();
+        let res: Result<(), usize> = r.try_fold_range_at(from, to, (), |(), v| {
+            if seen.len() == k {
+                return Err(seen.len());
+            }
+            seen.push(v);
+            Ok(())
+        });
+        if res != Err(k) {
+            return fail(format!("{w}: try_fold_range_at({from}, {to}) did not stop at the closure's error (position {k}): {res:?}"));
+        }
+        cmp(w, "try_fold_range_at[early-exit prefix]", from, to, &seen, &want[..k])?;
+        let mut seen2 = Vec::new();
+        let res: Result<(), usize> = r.try_for_each_range_at(from, to, |v| {
+            if seen2.len() == k {
+                return Err(k);
+            }
+            seen2.push(v);
+            Ok(())
+        });
+        if res != Err(k) {
+            return fail(format!("{w}: try_for_each_range_at({from}, {to}) did not stop at the closure's error"));
+        }
+        cmp(w, "try_for_each_range_at[early-exit prefix]", from, to, &seen2, &want[..k])?;
+    }
+    let mut got = Vec::new();
+    r.for_each_range_at(from, to, |v| got.push(v));
+    cmp(w, "for_each_range_at", from, to, &got, &want)?;
+    let mut got = Vec::new();
+    r.for_each_range(from, to, |v| got.push(v));
+    cmp(w, "for_each_range", from, to, &got, &want)?;
+    let mut got = Vec::new();
+    r.for_each_range_dyn_at(from, to, &mut |v| got.push(v));
+    cmp(w, "for_each_range_dyn_at", from, to, &got, &want)?;
+    let mut got = Vec::new();
+    r.for_each_range_dyn(from, to, &mut |v| got.push(v));
+    cmp(w, "for_each_range_dyn", from, to, &got, &want)?;
+    // signed ranges (python style)
+    let len = view.len();
+    let sf = if salt & 1 == 0 { from.min(i64::MAX as usize) as i64 } else { from as i64 - len as i64 };
+    let st = if salt & 2 == 0 { to.min(i64::MAX as usize) as i64 } else { to as i64 - len as i64 };
+    let (sf, st) = (sf.clamp(-(1 << 40), 1 << 40), st.clamp(-(1 << 40), 1 << 40));
+    let ef = i64_to_usize(sf, len);
+    let et = i64_to_usize(st, len);
+    let wants = view.range(ef, et);
+    cmp(w, "collect_signed_range", ef, et, &r.collect_signed_range(Some(sf), Some(st)), &wants)?;
+    cmp(w, "collect_signed_range_dyn", ef, et, &r.collect_signed_range_dyn(Some(sf), Some(st)), &wants)?;
+    cmp(w, "collect_signed_range(None,to)", 0, et, &r.collect_signed_range(None, Some(st)), &view.range(0, et))?;
+    cmp(w, "collect_signed_range(from,None)", ef, len, &r.collect_signed_range(Some(sf), None), &view.range(ef, len))?;
+    T::check_aggs(r, w, from, to, &want)?;
+    Ok(())
+}
+
+/// whole-vector and index-addressed paths
+pub fn check_points<T: Elem, R: ReadableVec<usize, T>>(
+    r: &R,
+    view: &View<T>,
+    idxs: &[usize],
+    count: &mut u64,
+) -> Result<(), String> {
+    let w = view.what;
+    let len = view.len();
+    if r.len() != len {
+        return fail(format!("{w}: len() {} != reference {len}", r.len()));
+    }
+    *count += 8;
+    let all = view.range(0, len);
+    cmp(w, "collect", 0, len, &r.collect(), &all)?;
+    cmp(w, "collect_dyn", 0, len, &r.collect_dyn(), &all)?;
+    let mut got = Vec::new();
+    r.for_each(|v| got.push(v));
+    cmp(w, "for_each", 0, len, &got, &all)?;
+    let got = r.fold(Vec::new(), |mut a, v| {
+        a.push(v);
+        a
+    });
+    cmp(w, "fold", 0, len, &got, &all)?;
+    let chk = |path: &str, i: usize, got: Option<T>, want: Option<T>| -> Result<(), String> {
+        if same_opt(&got, &want) {
+            Ok(())
+        } else {
+            fail(format!(
+                "{w}: {path}({i}) returned {:?}, reference holds {:?} (len {len})",
+                got.map(|v| v.show()),
+                want.map(|v| v.show())
+            ))
+        }
+    };
+    chk("collect_first", 0, r.collect_first(), view.at(0))?;
+    if len > 0 {
+        chk("collect_last", len - 1, r.collect_last(), view.at(len - 1))?;
+    } else {
+        chk("collect_last", 0, r.collect_last(), None)?;
+    }
+    for &i in idxs {
+        *count += 2;
+        chk("collect_one_at", i, r.collect_one_at(i), view.at(i))?;
+        chk("collect_one", i, r.collect_one(i), view.at(i))?;
+    }
+    Ok(())
+}
+
+/// cursor paths. `sequential`: also next()/fold()/for_each() (hole-free views only)
+pub fn check_cursor<T: Elem, R: ReadableVec<usize, T>>(
+    r: &R,
+    view: &View<T>,
+    idxs: &[usize],
+    start: usize,
+    n: usize,
+    count: &mut u64,
+) -> Result<(), String> {
+    let w = view.what;
+    let len = view.len();
+    let mut sorted: Vec<usize> = idxs.to_vec();
+    sorted.sort();
+    // index-addressed through a cursor (ascending, as the docs require for efficiency; any order is allowed)
+    let mut c = r.cursor();
+    for &i in &sorted {
+        *count += 1;
+        let got = c.get(i);
+        let want = view.at(i);
+        if !same_opt(&got, &want) {
+            return fail(format!(
+                "{w}: Cursor::get({i}) returned {:?}, reference holds {:?} (len {len})",
+                got.map(|v| v.show()),
+                want.map(|v| v.show())
+            ));
+        }
+    }
+    // sorted reads: values at the in-range, non-deleted indices, in order
+    let want: Vec<T> = sorted.iter().filter_map(|&i| view.at(i)).collect();
+    *count += 3;
+    cmp(w, "read_sorted_at", sorted.first().copied().unwrap_or(0), sorted.len(), &r.read_sorted_at(&sorted), &want)?;
+    cmp(w, "read_sorted", 0, sorted.len(), &r.read_sorted(&sorted), &want)?;
+    let sentinel = T::from_seed(0x5EED);
+    let mut out = vec![sentinel];
+    r.read_sorted_into_at(&sorted, &mut out);
+    cmp(w, "read_sorted_into_at", 0, sorted.len(), &out[1..], &want)?;
+    if view.has_holes() {
+        return Ok(());
+    }
+    // sequential access
+    let mut c = r.cursor();
+    c.advance(start);
+    let s = start.min(len);
+    if c.position() != s || c.remaining() != len - s {
+        return fail(format!("{w}: Cursor position/remaining after advance({start}) = {}/{}, expected {s}/{}", c.position(), c.remaining(), len - s));
+    }
+    let mut got = vec![];
+    for _ in 0..n.min(64) {
+        match c.next() {
+            Some(v) => got.push(v),
+            None => break,
+        }
+    }
+    *count += 3;
+    let e = (s + n.min(64)).min(len);
+    cmp(w, "Cursor::next", s, e, &got, &view.range(s, e))?;
+    let got = c.fold(n, Vec::new(), |mut a, v| {
+        a.push(v);
+        a
+    });
+    let e2 = e.saturating_add(n).min(len);
+    cmp(w, "Cursor::fold", e, e2, &got, &view.range(e, e2))?;
+    let mut got = vec![];
+    c.for_each(n, |v| got.push(v));
+    let e3 = e2.saturating_add(n).min(len);
+    cmp(w, "Cursor::for_each", e2, e3, &got, &view.range(e2, e3))?;
+    if c.position() != e3 {
+        return fail(format!("{w}: Cursor position {} after sequential reads, expected {e3}", c.position()));
+    }
+    // a get() must not disturb the sequential position
+    let _ = c.get(0);
+    if let Some(v) = c.next() {
+        if !same_opt(&Some(v), &view.at(e3)) {
+            return fail(format!("{w}: Cursor::next after get() returned the wrong element at {e3}"));
+        }
+    } else if e3 < len {
+        return fail(format!("{w}: Cursor::next returned None at {e3} < len {len}"));
+    }
+    Ok(())
+}
+
+/// object-safe subset, for `read_only_boxed_clone()`
+pub fn check_boxed<T: Elem>(
+    r: &ReadableBoxedVec<usize, T>,
+    view: &View<T>,
+    from: usize,
+    to: usize,
+    idxs: &[usize],
+    count: &mut u64,
+) -> Result<(), String> {
+    let w = view.what;
+    let len = view.len();
+    if r.len() != len {
+        return fail(format!("{w}: len() {} != reference {len}", r.len()));
+    }
+    let want = view.range(from, to);
+    *count += 5;
+    cmp(w, "collect_range_dyn", from, to, &r.collect_range_dyn(from, to), &want)?;
+    let mut got = vec![];
+    r.for_each_range_dyn_at(from, to, &mut |v| got.push(v));
+    cmp(w, "for_each_range_dyn_at", from, to, &got, &want)?;
+    let mut buf = vec![];
+    r.read_into_at(from, to, &mut buf);
+    cmp(w, "read_into_at", from, to, &buf, &want)?;
+    cmp(w, "collect_dyn", 0, len, &r.collect_dyn(), &view.range(0, len))?;
+    let cl = r.clone();
+    cmp(w, "clone().collect_range_dyn", from, to, &cl.collect_range_dyn(from, to), &want)?;
+    for &i in idxs {
+        *count += 1;
+        let got = r.collect_one_at(i);
+        if !same_opt(&got, &view.at(i)) {
+            return fail(format!("{w}: collect_one_at({i}) returned {:?}, reference holds {:?}", got.map(|v| v.show()), view.at(i).map(|v| v.show())));
+        }
+    }
+    let mut sorted = idxs.to_vec();
+    sorted.sort();
+    let wants: Vec<T> = sorted.iter().filter_map(|&i| view.at(i)).collect();
+    cmp(w, "read_sorted_at", 0, sorted.len(), &r.read_sorted_at(&sorted), &wants)?;
+    Ok(())
+}
